@@ -78,9 +78,11 @@ def run(ctx):
                 for d in fut.succ(x):
                     if fut.dominates(d, x):
                         back.add((x, d))
-            edges = dict((lab, d) for d, lab in fut.out_edges(s))
-            ok_reg = fut.reachable_from([edges.get(0)], removed_edges=back) if 0 in edges else set()
-            err_reg = fut.reachable_from([edges.get(1)], removed_edges=back) if 1 in edges else set()
+            from engine.rules import result_ok_edge
+            ok_d = [d for d, lab in fut.out_edges(s) if result_ok_edge(ctx, fut, s, lab) is True]
+            err_d = [d for d, lab in fut.out_edges(s) if result_ok_edge(ctx, fut, s, lab) is False]
+            ok_reg = fut.reachable_from(ok_d, removed_edges=back) if ok_d else set()
+            err_reg = fut.reachable_from(err_d, removed_edges=back) if err_d else set()
             # bool constants assigned in the exclusive part of each region
             def const_assigns(region):
                 out = []
@@ -104,9 +106,18 @@ def run(ctx):
                 trues = [(b, loc) for b, l, v, loc in flags_err if l == T and v is True]
                 rt = variant_index(ctx, "lumina_node::p2p::P2pError", "RequestTimedOut")
                 okt = bool(trues)
-                for b, loc in trues:
-                    conds = [(s2, lab) for s2, lab, _ in fut.edge_conditions(b) if s2 in err_reg]
-                    okt = okt and any(lab == rt for _, lab in conds)
+                # with the `== RequestTimedOut` edges of the tests of the error's discriminant removed,
+                # no `timed_out = true` assignment is reachable from the Err edge
+                removed_rt = set(back)
+                n_rt = 0
+                for s2 in sorted(err_reg):
+                    t2 = fut.blocks[s2]["t"]
+                    if t2["k"] == "switch" and fut.switch_discr_expr(s2)[0] == "discr":
+                        for d2, lab2 in fut.out_edges(s2):
+                            if lab2 == rt:
+                                removed_rt.add((s2, d2))
+                                n_rt += 1
+                okt = okt and n_rt >= 1 and fut.path_to(err_d, {b for b, _ in trues}, removed_rt) is None
                 ctx.check(okt, "C33.fut.timeout-arm", fut.path, "timed_out = true only on the P2pError::RequestTimedOut arm", key="C33.fut.timeout-arm")
                 # every other error path ends in a rejecting exit: from the Err edge, the merge
                 # point (common continuation) is reachable only through an assignment to the flag
@@ -116,7 +127,7 @@ def run(ctx):
                 for b in assigns:
                     for d, _ in fut.out_edges(b):
                         removed.add((b, d))
-                leak = fut.path_to([edges[1]], merge, removed) if merge else None
+                leak = fut.path_to(err_d, merge, removed) if merge and err_d else None
                 ctx.check(leak is None, "C33.fut.other-errors-fatal", fut.path, "an error other than a timeout never reaches the loop continuation (it leaves through a rejecting exit)", key="C33.fut.other-errors-fatal", path=fut.render_path(leak) if leak else None)
             # block flag: returned value
             acc = [x for x in exit_sites(fut) if x["kind"] == "accept"]
